@@ -148,6 +148,27 @@ def handler(st, opts):
         if op == "radd_s": return 1.5 + x
         if op == "rmul_s": return 2.5 * x
         if op == "sub_s": return x - 1.5
+        if op in ("sub_0", "sub_0_m"): return x - 0
+        if op in ("rsub_0", "rsub_0_m"): return 0 - x
+        if op == "add_0": return x + 0
+        if op == "radd_0": return 0.0 + x
+        if op in ("mul_1", "mul_1_m"): return x * 1
+        if op == "rmul_1": return 1.0 * x
+        if op in ("div_1", "div_1_m"): return x / 1
+        if op == "mul_0": return x * 0
+        if op == "reshape_id": return tt.reshape(x, list(N))
+        if op == "permute_id": return tt.permute(x, list(range(d)))
+        if op == "pad_none": return tt.pad(x, tuple((0, 0) for _ in range(d)))
+        if op == "index_all": return x[(slice(None),) * d]
+        if op == "index_ell": return x[...]
+        if op == "sum_none": return x.sum([])
+        if op == "pos": return +x
+        if op == "kron_none": return tt.kron(x, None)
+        if op == "cat_one": return tt.cat((x,), 0)
+        if op == "mprod_none": return x.mprod([], [])
+        if op == "to_same": return x.to(dtype=dt)
+        if op == "t_t": return x.t().t()
+        if op == "conj_real": return x.conj()
         if op == "layer":
             layer = tt.nn.LinearLayerTT(N, M, [1] + [2] * (d - 1) + [1], dtype=dt)
             return layer(torch.randn([2] + N, generator=gen, dtype=dt))
